@@ -1,7 +1,8 @@
 (* Props/C15.v -- property theorems only (proofs in Cfg/SProofs.v; model Cfg/SOps.v, the static-view
    restatement of Cfg/CfgOps.v; both are run against the implementation by Cfg/C15Check.v) *)
 From Coq Require Import ZArith List.
-From Falcon Require Import Base.Res IL.Func Cfg.CfgOps Cfg.SOps Cfg.SProofs Cfg.Lang Cfg.MergeProofs.
+From Falcon Require Import Graph.NMap Graph.Graph Graph.GraphInv.
+From Falcon Require Import Base.Res IL.Const IL.Expr IL.Func Cfg.CfgOps Cfg.SOps Cfg.SProofs Cfg.Lang Cfg.MergeProofs Cfg.AppendProofs Cfg.AppendLang Cfg.EProofs.
 Import ListNotations.
 Local Open Scope Z_scope.
 
@@ -44,3 +45,97 @@ Theorem merge_step_lang : forall g m s, sinv g -> mergeable g m s ->
   snd (s_merge_one g m s) = Ok tt /\ forall w, lang (fst (s_merge_one g m s)) w <-> lang g w.
 Proof. exact MergeProofs.merge_step_lang. Qed.
 Print Assumptions merge_step_lang.
+
+(* 3. append (to a non-empty graph with entry and exit; the appended graph has entry and exit):
+      never fails; the result is the disjoint union of g and a copy of [other] re-indexed by the
+      injective map [rho] onto fresh indices, plus exactly the one unconditional edge
+      exit(g) -> rho(entry(other)); entry = entry(g), exit = rho(exit(other)) *)
+Theorem append_struct : forall g other ex oen oex,
+  sinv g -> sinv other -> g_blocks g <> [] -> g_entry g <> None -> g_exit g = Some ex ->
+  g_entry other = Some oen -> g_exit other = Some oex ->
+  exists g',
+    s_append g other = (g', Ok tt) /\ sinv g' /\
+    g_next_index g' = g_next_index g + Z.of_nat (length (g_blocks other)) /\
+    (forall b, In b (g_blocks g') <->
+       In b (g_blocks g) \/ exists b0, In b0 (g_blocks other) /\ b = block_clone_new_index b0 (rho g other (b_index b0))) /\
+    (forall e, In e (g_edges g') <->
+       In e (g_edges g) \/
+       (exists e0, In e0 (g_edges other) /\ e = mkedge (rho g other (e_head e0)) (rho g other (e_tail e0)) (e_cond e0)) \/
+       e = mkedge ex (rho g other oen) None) /\
+    g_entry g' = g_entry g /\ g_exit g' = Some (rho g other oex).
+Proof. exact AppendProofs.append_struct. Qed.
+Print Assumptions append_struct.
+
+Theorem rho_fresh_injective : forall g other,
+  (forall i, has_block other i = true ->
+     g_next_index g <= rho g other i < g_next_index g + Z.of_nat (length (g_blocks other))) /\
+  (forall i j, has_block other i = true -> has_block other j = true -> rho g other i = rho g other j -> i = j).
+Proof. intros g other. split; [apply AppendProofs.rho_fresh | apply AppendProofs.rho_inj]. Qed.
+Print Assumptions rho_fresh_injective.
+
+(* 3-lang. "appending runs the first graph and then the second": the words executable from the entry of
+      append g other are those of g, or a complete word of g (entry to the end of the exit block) followed
+      by a word of other; complete words of the result are concatenations of complete words *)
+Theorem append_runs_first_then_second : forall g other en ex oen oex,
+  sinv g -> sinv other -> g_blocks g <> [] -> g_entry g = Some en -> g_exit g = Some ex ->
+  g_entry other = Some oen -> g_exit other = Some oex ->
+  let g' := fst (s_append g other) in
+  (forall w, lang g' w <-> lang g w \/ exists w1 w2, w = w1 ++ w2 /\ clang g w1 /\ lang other w2) /\
+  (forall w, clang g' w <-> exists w1 w2, w = w1 ++ w2 /\ clang g w1 /\ clang other w2).
+Proof. exact AppendLang.append_runs_first_then_second. Qed.
+Print Assumptions append_runs_first_then_second.
+
+(* 3'. insert: never fails when [other] has entry and exit; disjoint union, no new edge, entry/exit
+       cleared, the returned pair is the image of other's (entry, exit) *)
+Theorem insert_struct : forall g other oen oex,
+  sinv g -> sinv other -> g_entry other = Some oen -> g_exit other = Some oex ->
+  exists g',
+    s_insert g other = (g', Ok (rho g other oen, rho g other oex)) /\ sinv g' /\
+    g_next_index g' = g_next_index g + Z.of_nat (length (g_blocks other)) /\
+    (forall b, In b (g_blocks g') <->
+       In b (g_blocks g) \/ exists b0, In b0 (g_blocks other) /\ b = block_clone_new_index b0 (rho g other (b_index b0))) /\
+    (forall e, In e (g_edges g') <->
+       In e (g_edges g) \/
+       (exists e0, In e0 (g_edges other) /\ e = mkedge (rho g other (e_head e0)) (rho g other (e_tail e0)) (e_cond e0))) /\
+    g_entry g' = None /\ g_exit g' = None.
+Proof. exact AppendProofs.insert_struct. Qed.
+Print Assumptions insert_struct.
+
+(* 4. on the four-map model (Cfg/CfgOps.v over Graph/Graph.v): after any history of operations from
+      ControlFlowGraph::new() -- any outcomes, arbitrary graphs handed to append/insert -- the graph
+      satisfies C11's graph_inv, and the successor / predecessor queries agree with the edge set *)
+Theorem graph_inv_preserved : forall ops,
+  @graph_inv block edge block_Vertex edge_Edge (eg (fold_left e_run ops ecfg_new)).
+Proof. exact EProofs.graph_inv_preserved. Qed.
+Print Assumptions graph_inv_preserved.
+
+Theorem adjacency_agrees : forall ops i, let g := eg (fold_left e_run ops ecfg_new) in
+  has_vertex g i = true ->
+  (exists s, successor_indices g i = Ok s /\ forall t, In t s <-> has_edge g i t = true) /\
+  (exists p, predecessor_indices g i = Ok p /\ forall h, In h p <-> has_edge g h i = true).
+Proof. exact EProofs.adjacency_agrees. Qed.
+Print Assumptions adjacency_agrees.
+
+(* the hypotheses are satisfiable: four blocks, a cycle 0 -> 1 -> 3 -> 0, a self-loop on 1,
+   conditional edges, an empty block (2), a removed instruction *)
+Definition ex_op (k : Z) : operation := ONop None.
+Definition ex_hist : list sop :=
+  [SNewBlock; SNewBlock; SNewBlock; SNewBlock;
+   SPush 0 (ONop None); SPush 0 (ONop None); SPush 1 (ONop None); SPush 3 (ONop None); SRemoveInstr 0 0;
+   SCond 0 1 (EConst (mkc 1 1)); SCond 0 2 (EConst (mkc 1 0)); SCond 1 1 (EConst (mkc 1 1)); SCond 1 3 (EConst (mkc 1 0));
+   SUncond 2 3; SUncond 3 0; SSetEntry 0; SSetExit 3].
+Definition ex_g : cfg := fold_left s_run ex_hist s_new.
+Example ex_reachable : reachable ex_g /\ cfg_inv ex_g = true /\ length (g_blocks ex_g) = 4%nat /\ length (g_edges ex_g) = 6%nat.
+Proof.
+  split; [apply reachable_fold; [exact reach_new | repeat constructor] | repeat split; reflexivity].
+Qed.
+(* merging it: only 2 -> 3 qualifies? no: 3 has two in-edges; nothing to merge, the graph is unchanged *)
+Example ex_merge : s_merge ex_g = (ex_g, Ok tt).
+Proof. reflexivity. Qed.
+(* a straight line 0 -> 1 -> 2 collapses into block 0 and the exit follows *)
+Definition ex_line : cfg :=
+  fold_left s_run [SNewBlock; SNewBlock; SNewBlock; SPush 0 (ONop None); SPush 1 (ONop None); SPush 2 (ONop None);
+                   SUncond 0 1; SUncond 1 2; SSetEntry 0; SSetExit 2; SMerge] s_new.
+Example ex_line_merged : map b_index (g_blocks ex_line) = [0] /\ g_exit ex_line = Some 0 /\
+  map i_index (b_instrs (hd (block_new 9) (g_blocks ex_line))) = [0; 1; 2].
+Proof. repeat split; reflexivity. Qed.
